@@ -176,7 +176,8 @@ class OpenCtx(BaseCtx):
             field = cfg["remote_as"]
             self.stats["gen:open_with_inconsistent_as_field"] += 1
         rng.shuffle(caps)
-        return rp.encode_open(asn, hold, "2.2.2.2", caps, version=version, one_param_each=rng.chance(0.5),
+        bgp_id = "2.2.2.2" if rng.chance(0.6) else "2.2.%d.%d" % (rng.randrange(256), rng.randrange(1, 255))
+        return rp.encode_open(asn, hold, bgp_id, caps, version=version, one_param_each=rng.chance(0.5),
                               my_as_field=field)
 
     def peer_update(self, rng):
@@ -188,7 +189,12 @@ class OpenCtx(BaseCtx):
         first = cfg["remote_as"] if (as4 or cfg["remote_as"] <= 65535) else 23456
         path = [first] + [rng.pick(pool) for _ in range(rng.randrange(0, 4))]
         segs = [(2, path)]
-        if rng.chance(0.2):
+        if rng.chance(0.08):
+            # attribute bytes that are a well-formed AS_PATH under BOTH AS widths (02 01 02 00 02 00): what
+            # they mean depends on this session's negotiation only
+            segs = [(2, [0x02000200])] if as4 else [(2, [0x0200]), (2, [])]
+            self.stats["gen:width_ambiguous_as_path"] += 1
+        if rng.chance(0.2) and len(segs) == 1 and len(segs[0][1]) and segs[0][1][0] not in (0x02000200, 0x0200):
             segs.append((1, [rng.pick(pool) for _ in range(rng.randrange(1, 3))]))
         attrs = {"origin": 0, "as_path": segs, "next_hop": "10.0.0.2"}
         if cfg["remote_as"] == cfg["local_as"]:
@@ -392,7 +398,7 @@ class OpenProfile(BaseProfile):
             "only 4-octet-AS, hold times, rejected ones: bad version / wrong AS / hold 1,2) + UPDATEs whose AS_PATH is 4-octet iff "
             "both OPENs of this session carried capability 65; non-trivial = the agent sent an OPEN; distinct = distinct "
             "(op, outputs) sequence")
-    probes = ["gen:sessions_ended_in_openconfirm", "gen:open_with_inconsistent_as_field", "later_sessions", "peer_open_rejectable", "peer_open_acceptable", "updates_checked",
+    probes = ["gen:width_ambiguous_as_path", "gen:sessions_ended_in_openconfirm", "gen:open_with_inconsistent_as_field", "later_sessions", "peer_open_rejectable", "peer_open_acceptable", "updates_checked",
               "as4_advertised_by_one_side_only", "keepalive_interval_checks", "hold_expiries_checked"]
 
     def gen_config(self, rng, idx, tier):
